@@ -41,6 +41,19 @@ def tables():
         n += 1
     t["seeds"] = "\n".join(rows)
     t["nseeds"] = str(n)
+    # the specification modules as they are: file, lines, first sentence of the header comment
+    rows = ["| module | lines | what it specifies (head of its comment) |", "|---|---|---|"]
+    for f in sorted(glob.glob(os.path.join(VERIF, "specs", "*.tla"))):
+        src = open(f).read()
+        parts = []
+        for line in src.splitlines()[1:]:
+            if line.startswith("(*"):
+                parts.append(line.strip().strip("(*)").strip())
+            elif parts or line.strip():
+                break
+        head = re.sub(r"\s+", " ", " ".join(parts)).strip()
+        rows.append(f"| `{os.path.basename(f)}` | {len(src.splitlines())} | {head[:230]} |")
+    t["specs"] = "\n".join(rows)
     return t
 
 
